@@ -29,6 +29,14 @@ def run(check):
     check.guarded("FRESH-TEMP", X.rule_fresh_temp)
     check.guarded("SPREAD-ONCE", X.rule_spread_once)
     check.guarded("KEPT-IN-PLACE", X.rule_kept_in_place)
+    check.guarded("NODE-REBUILD", X.rule_node_rebuild)
+    check.guarded("METHOD-NAME-KEPT", X.rule_method_name_kept)
+    from . import c06 as _c06
+    check.guarded("DECLARE-SCOPE", _c06.rule_declare_scope)
+    # every temporary a hook call uses is declared by the `let` of the block whose visitor created it
+    from ..engine import Only as _Only
+    check.rule("DECLARE-PATH", "the registered temporaries of a block's provider are exactly what the `let` injected into that block declares (an undeclared or shared temporary is a ReferenceError in strict code or a value clobbered by another activation)")
+    check.guarded("DECLARE-PATH", lambda c: _c06.rule_declare_path(_Only(c, "DECLARE-PATH", "DECLARE-PATH", ("/declares-registered", "/registered", "/provider-stores", "/let", "/each-ident", "/FLOOR/insert_variable_declaration", "/FLOOR/temporaries created"))))
     return {
         "explanation": "Structural necessary conditions of behaviour preservation decided over the typed HIR: root dispatch of every expression, order of hoisting against the ECMAScript evaluation order table, parenthesisation of hoisted comma expressions and of injected sequences, keep/replace wiring for identifiers, and single use of every input sub-tree.",
         "assumptions": ["ECMAScript evaluation order table (left before right, object before property, callee before arguments)"],
